@@ -18,7 +18,8 @@ _AnyNumber = Union[int, decimal.Decimal, 'NumberExpr']
 
 
 def _add_expr_from_value(value: decimal.Decimal) -> NumberAddExpr:
-    number_token = number.Number.from_value(value.copy_abs())
+    # exact for a Decimal (abs() would round it to the context precision); an int is accepted as well
+    number_token = number.Number.from_value(value.copy_abs() if isinstance(value, decimal.Decimal) else abs(value))
     token_store = base.TokenStore.from_tokens([number_token])
     atom_expr: NumberAtomExpr
     if value < 0:
